@@ -26,6 +26,8 @@ def build(tier, seed):
         fams.append(("tabcons", p, root, None))
     for p, root in gen_shapes.fornum_coercion_cases():
         fams.append(("forcoerce", p, root, None))
+    for p, root in gen_shapes.same_label_cases(rng, 300 if thorough else 60):
+        fams.append(("samelabel", p, root, None))
     for p, root in gen_shapes.fresh_local_cases():
         fams.append(("fresh", p, root, None))
     # G-pad: a sample of the above embedded among many locals / constants
